@@ -6,7 +6,9 @@ Property theorems only; helper lemmas live in `Lemmas/Json*.lean`, the reading o
 
 Naming: `X_false` refutes the full-strength statement `X` with a concrete witness
 (replayed on the real code by the harness, see corpus/C13), `X_partial` is the
-statement with the hypothesis that makes it true.
+statement with the hypothesis that makes it true, `X_old_rule_false` refutes `X` for
+the resolver rule of before commit 33969c0 (`Spec.childrenOfOld`: a glob pattern
+descended into the characters of a string value) on an input on which `X` holds now.
 -/
 import AnnetModel.Lemmas.JsonFragment
 import AnnetModel.Lemmas.JsonFilter
@@ -18,12 +20,16 @@ Annet.Json.C13_fragment_idempotent_partial
 Annet.Json.C13_fragment_inside_false
 Annet.Json.C13_fragment_total_false
 Annet.Json.C13_fragment_idempotent_false
+Annet.Json.C13_fragment_inside_old_rule_false
+Annet.Json.C13_fragment_idempotent_old_rule_false
 Annet.Json.C13_chain_partial
 Annet.Json.C13_resolve_sound_complete
+Annet.Json.C13_resolve_old_rule_false
 Annet.Json.C13_resolve_escapes_partial
 Annet.Json.C13_resolve_escapes_false
 Annet.Json.C13_filters_subdocument_partial
 Annet.Json.C13_filters_subdocument_false
+Annet.Json.C13_filters_subdocument_old_rule_false
 Annet.Json.C13_patch_roundtrip
 Annet.Json.C13_patch_append
 Annet.Json.C13_sorted_patch_false
@@ -70,35 +76,83 @@ theorem C13_fragment_total_false :
   rw [this] at hr
   cases hr
 
-/-- Idempotence at full strength is false as well: a pattern that continues below a
-string value treats its characters as children (`str` is a `collections.abc.Sequence`,
-jsontools.py:172); the first merge happens to succeed, the second raises `TypeError`
-(`'str' object does not support item assignment`). -/
+/-- Idempotence at full strength is false as well, for documents that are NOT of one
+schema: where the device has an array and the fragment an object with the key `-`, the
+selected pointer (last part `-`) means "append" to `jsonpointer` (`parent.append(value)`,
+jsonpointer.py:209), so every further merge appends once more.  (The witness recorded
+before commit 33969c0 was a string descent: `C13_fragment_idempotent_old_rule_false`.) -/
 theorem C13_fragment_idempotent_false :
     ¬ ∀ (old f : J) (acl : List String) (r : J), old.wf = true → f.wf = true →
         (∀ pat ∈ acl, ∃ p, parsePointer pat = .ok p ∧ p ≠ []) →
         applyFragment old f acl = .ok r → applyFragment r f acl = .ok r := by
   intro h
-  have := h (.obj []) (.obj [("k", .str "0")]) ["/k/0", "/k"] (.obj [("k", .str "0")]) rfl rfl
+  have := h (.obj [("a", .arr [])]) (.obj [("a", .obj [("-", .num 1)])]) ["/a/-"] (.obj [("a", .arr [.num 1])]) rfl rfl
     (by
       intro pat hp
       simp at hp
-      rcases hp with rfl | rfl
-      · exact ⟨["k", "0"], rfl, by simp⟩
-      · exact ⟨["k"], rfl, by simp⟩)
+      subst hp
+      exact ⟨["a", "-"], rfl, by simp⟩)
     (by rfl)
-  have h2 : applyFragment (.obj [("k", .str "0")]) (.obj [("k", .str "0")]) ["/k/0", "/k"] = .error .type := by rfl
+  have h2 : applyFragment (.obj [("a", .arr [.num 1])]) (.obj [("a", .obj [("-", .num 1)])]) ["/a/-"]
+      = .ok (.obj [("a", .arr [.num 1, .num 1])]) := by rfl
   rw [h2] at this
   cases this
 
-/-- Inside law for documents of one schema (`SpineObj`: whatever old document and
-fragment have above a selectable pointer is an object): the merge succeeds and at
-every pointer covered by a pattern — the selected pointer itself and everything
+/-! ### why commit 33969c0 matters: the same laws over the old resolver rule
+
+The two inputs below satisfy the hypotheses of the `_partial` theorems that follow (the
+device document is `{}`, the fragment has a string where the pattern continues), so the
+laws hold on them now; with the old rule both fail. -/
+
+/-- Old rule: the pattern `/b/0` selected the first character of the fragment's string
+`"1"` and the merge wrote the bogus object `{"b": {"0": "1"}}` — the result has a pointer
+`/b/0` that the fragment does not have. -/
+theorem C13_fragment_inside_old_rule_false :
+    ¬ ∀ (old f : J) (acl : List String) (ps : List (List String)),
+        ParsedAcl acl ps → (∀ p ∈ ps, p ≠ []) → old.wf = true → f.wf = true →
+        SpineObj ps old → SpineNoArr ps f →
+        ∃ r, applyFragmentOld old f acl = .ok r ∧ InsideEq ps r f := by
+  intro h
+  obtain ⟨r, hr, hin⟩ := h (.obj []) (.obj [("b", .str "1")]) ["/b/0"] [["b", "0"]] ⟨rfl, trivial⟩ (by simp) rfl rfl
+    (spineObj_of_check _ _ (by decide)) (spineNoArr_of_check _ _ (by decide))
+  have hr' : applyFragmentOld (.obj []) (.obj [("b", .str "1")]) ["/b/0"]
+      = .ok (.obj [("b", .obj [("0", .str "1")])]) := by rfl
+  rw [hr'] at hr
+  cases hr
+  have := hin ["b", "0"] (by simp) ["b", "0"] (by decide)
+  have h1 : getP ["b", "0"] (.obj [("b", .obj [("0", .str "1")])]) = some (.str "1") := rfl
+  have h2 : getP ["b", "0"] (.obj [("b", .str "1")]) = none := rfl
+  rw [h1, h2] at this
+  cases this
+
+/-- Old rule: the first merge happened to succeed, the second raised `TypeError`
+(`'str' object does not support item assignment`). -/
+theorem C13_fragment_idempotent_old_rule_false :
+    ¬ ∀ (old f : J) (acl : List String) (ps : List (List String)),
+        ParsedAcl acl ps → (∀ p ∈ ps, p ≠ []) → old.wf = true → f.wf = true →
+        SpineObj ps old → SpineNoArr ps f →
+        ∃ r, applyFragmentOld old f acl = .ok r ∧ applyFragmentOld r f acl = .ok r := by
+  intro h
+  obtain ⟨r, hr, hagain⟩ := h (.obj []) (.obj [("k", .str "0")]) ["/k/0", "/k"] [["k", "0"], ["k"]]
+    ⟨rfl, rfl, trivial⟩ (by simp) rfl rfl
+    (spineObj_of_check _ _ (by decide)) (spineNoArr_of_check _ _ (by decide))
+  have hr' : applyFragmentOld (.obj []) (.obj [("k", .str "0")]) ["/k/0", "/k"] = .ok (.obj [("k", .str "0")]) := by rfl
+  rw [hr'] at hr
+  cases hr
+  have h2 : applyFragmentOld (.obj [("k", .str "0")]) (.obj [("k", .str "0")]) ["/k/0", "/k"] = .error .type := by rfl
+  rw [h2] at hagain
+  cases hagain
+
+/-- Inside law.  Hypotheses: whatever the device document has above a selectable pointer
+is an object (`SpineObj`), and the fragment has no array there (`SpineNoArr`: an object
+or a scalar — since commit 33969c0 a string where a pattern continues is as harmless as a
+number; before, this needed `SpineObj` of the fragment as well).  Then the merge succeeds
+and at every pointer covered by a pattern — the selected pointer itself and everything
 below it — the result reads exactly as the fragment does; in particular keys the
 fragment lacks are gone.  Any number of patterns, nested or overlapping. -/
 theorem C13_fragment_inside_partial (old f : J) (acl : List String) (ps : List (List String))
     (hparse : ParsedAcl acl ps) (hne : ∀ p ∈ ps, p ≠ [])
-    (hwo : old.wf = true) (hwf : f.wf = true) (hso : SpineObj ps old) (hsf : SpineObj ps f) :
+    (hwo : old.wf = true) (hwf : f.wf = true) (hso : SpineObj ps old) (hsf : SpineNoArr ps f) :
     ∃ r, applyFragment old f acl = .ok r ∧ InsideEq ps r f := by
   obtain ⟨r, h1, h2, _, _, _⟩ := fragment_laws old f acl ps hparse hne hwo hwf hso hsf
   exact ⟨r, h1, h2⟩
@@ -109,7 +163,7 @@ whole subtree, present or absent — and every object of the old document that n
 pattern covers (the ancestors of selected pointers included) is still an object. -/
 theorem C13_fragment_outside_partial (old f : J) (acl : List String) (ps : List (List String))
     (hparse : ParsedAcl acl ps) (hne : ∀ p ∈ ps, p ≠ [])
-    (hwo : old.wf = true) (hwf : f.wf = true) (hso : SpineObj ps old) (hsf : SpineObj ps f) :
+    (hwo : old.wf = true) (hwf : f.wf = true) (hso : SpineObj ps old) (hsf : SpineNoArr ps f) :
     ∃ r, applyFragment old f acl = .ok r ∧ OutsideEq ps r old ∧
       (∀ a : Ptr, (∀ p ∈ ps, covers p a = false) → ObjAt a old → ObjAt a r) := by
   obtain ⟨r, h1, _, h3, _, h5⟩ := fragment_laws old f acl ps hparse hne hwo hwf hso hsf
@@ -118,7 +172,7 @@ theorem C13_fragment_outside_partial (old f : J) (acl : List String) (ps : List 
 /-- Merging again changes nothing — equality of documents, key order included. -/
 theorem C13_fragment_idempotent_partial (old f : J) (acl : List String) (ps : List (List String))
     (hparse : ParsedAcl acl ps) (hne : ∀ p ∈ ps, p ≠ [])
-    (hwo : old.wf = true) (hwf : f.wf = true) (hso : SpineObj ps old) (hsf : SpineObj ps f) :
+    (hwo : old.wf = true) (hwf : f.wf = true) (hso : SpineObj ps old) (hsf : SpineNoArr ps f) :
     ∃ r, applyFragment old f acl = .ok r ∧ applyFragment r f acl = .ok r := by
   obtain ⟨r, h1, _, _, h4, _⟩ := fragment_laws old f acl ps hparse hne hwo hwf hso hsf
   exact ⟨r, h1, h4⟩
@@ -139,13 +193,28 @@ theorem C13_chain_partial (old : J) (gens : List (J × List String)) (f : J) (ac
 
 /-! ## pointer resolution -/
 
-/-- `_resolve_json_pointers(pattern, d)` returns exactly the pointers of `d` selected
-by the pattern, for documents whose ancestors of selectable pointers are objects. -/
+/-- `_resolve_json_pointers(pattern, d)` returns exactly the pointers of `d` selected by
+the pattern — full strength since commit 33969c0: EVERY document with unique keys
+(objects, arrays by canonical index `str(i)`, nothing below strings and other scalars),
+every non-root pattern. -/
 theorem C13_resolve_sound_complete (pat : String) (p : List String) (d : J) (q : Ptr)
-    (hp : parsePointer pat = .ok p) (hne : p ≠ []) (hw : d.wf = true) (hs : SpineObj [p] d) :
+    (hp : parsePointer pat = .ok p) (hne : p ≠ []) (hw : d.wf = true) :
     ∃ qs, resolve pat d = .ok qs ∧ (q ∈ qs ↔ (matchPtr p q = true ∧ getP q d ≠ none)) :=
-  ⟨resolveRec p d, resolve_eq pat p d hp hne,
-    mem_resolveRec p d q hw (fun a hla hpa v hv => hs p (by simp) a hla hpa v hv)⟩
+  ⟨resolveRec p d, resolve_eq pat p d hp hne, mem_resolveRec p d q hw⟩
+
+/-- The same statement over the old rule is false: `/c/0` resolved to the pointer `/c/0`
+in `{"c": "y"}`, which has nothing there (RFC 6901: a string has no children). -/
+theorem C13_resolve_old_rule_false :
+    ¬ ∀ (pat : String) (p : List String) (d : J) (q : Ptr),
+        parsePointer pat = .ok p → p ≠ [] → d.wf = true →
+        ∃ qs, resolveOld pat d = .ok qs ∧ (q ∈ qs ↔ (matchPtr p q = true ∧ getP q d ≠ none)) := by
+  intro h
+  obtain ⟨qs, hq, hiff⟩ := h "/c/0" ["c", "0"] (.obj [("c", .str "y")]) ["c", "0"] rfl (by simp) rfl
+  have hq' : resolveOld "/c/0" (.obj [("c", .str "y")]) = .ok [["c", "0"]] := by rfl
+  rw [hq'] at hq
+  cases hq
+  have := (hiff.1 (by simp)).2
+  exact this rfl
 
 /-- The pointer rebuilt from matched keys denotes those keys, whatever characters
 (`/`, `~`, …) they contain — true since commit 18103e9 (`jsonpointer.escape`). -/
@@ -162,21 +231,46 @@ theorem C13_resolve_escapes_false : ¬ ∀ mp : Ptr, rebuild mp = .ok mp := by
 
 /-! ## filters -/
 
-/-- Full strength: whatever the filters, the result is a sub-document.  False of the
-code: a filter below a string value returns an object keyed by character positions. -/
+/-- Full strength: whatever the filters, the result is a sub-document (objects with a
+subset of the keys, everything else copied unchanged).  False of the code: a selected
+array element is rendered as an object keyed by its index.  (The harness tolerates
+exactly this rendering; the witness recorded before commit 33969c0 was a string descent:
+`C13_filters_subdocument_old_rule_false`.) -/
 theorem C13_filters_subdocument_false :
     ¬ ∀ (d : J) (F : List String) (r : J), d.wf = true → applyAclFilters d F = .ok r → isSub r d = true := by
   intro h
-  have := h (.obj [("c", .str "y")]) ["/c/0"] (.obj [("c", .obj [("0", .str "y")])]) rfl (by rfl)
+  have := h (.obj [("a", .arr [.str "x"])]) ["/a/0"] (.obj [("a", .obj [("0", .str "x")])]) rfl (by rfl)
   revert this
   decide
 
-/-- For a document of one schema with respect to the filters, `apply_acl_filters`
-succeeds and returns a sub-document: objects with a subset of the keys, everything
-else copied unchanged. -/
+/-- Old rule: a filter continuing below a string value returned an object keyed by
+character positions, on a document that meets the hypotheses of
+`C13_filters_subdocument_partial`. -/
+theorem C13_filters_subdocument_old_rule_false :
+    ¬ ∀ (d : J) (F : List String) (ps : List (List String)),
+        (∀ t ∈ F, pyStrip t = "" ∨ ∃ p ∈ ps, p ≠ [] ∧ parsePointer (pyStrip t) = .ok p) →
+        d.wf = true → SpineNoArr ps d → d.isObj = true →
+        ∃ r, applyAclFiltersOld d F = .ok r ∧ isSub r d = true := by
+  intro h
+  obtain ⟨r, hr, hsub⟩ := h (.obj [("c", .str "y")]) ["/c/0"] [["c", "0"]]
+    (by
+      intro t ht
+      simp at ht
+      subst ht
+      exact Or.inr ⟨["c", "0"], by simp, by simp, by rfl⟩)
+    rfl (spineNoArr_of_check _ _ (by decide)) rfl
+  have hr' : applyAclFiltersOld (.obj [("c", .str "y")]) ["/c/0"] = .ok (.obj [("c", .obj [("0", .str "y")])]) := by rfl
+  rw [hr'] at hr
+  cases hr
+  revert hsub
+  decide
+
+/-- For a document without an array above a selectable pointer (objects and scalars —
+strings included since commit 33969c0), `apply_acl_filters` succeeds and returns a
+sub-document: objects with a subset of the keys, everything else copied unchanged. -/
 theorem C13_filters_subdocument_partial (d : J) (F : List String) (ps : List (List String))
     (hF : ∀ t ∈ F, pyStrip t = "" ∨ ∃ p ∈ ps, p ≠ [] ∧ parsePointer (pyStrip t) = .ok p)
-    (hw : d.wf = true) (hs : SpineObj ps d) (hobj : d.isObj = true) :
+    (hw : d.wf = true) (hs : SpineNoArr ps d) (hobj : d.isObj = true) :
     ∃ r, applyAclFilters d F = .ok r ∧ isSub r d = true :=
   filters_sub d F ps hF hw hs hobj
 
@@ -221,7 +315,20 @@ example : ParsedAcl exAcl exPs := ⟨rfl, rfl, trivial⟩
 example : ∀ p ∈ exPs, p ≠ [] := by decide
 example : exOld.wf = true ∧ exF.wf = true := by decide
 example : SpineObj exPs exOld := spineObj_of_check exPs exOld (by decide)
-example : SpineObj exPs exF := spineObj_of_check exPs exF (by decide)
+example : SpineNoArr exPs exF := spineNoArr_of_check exPs exF (by decide)
+
+/-- the regression input of commit 33969c0 (corpus/C13/frag.string-below-pattern.json) meets the
+hypotheses as well — the fragment has a string where `/b/0` continues — and nothing is selected -/
+example : SpineObj [["b", "0"]] (.obj []) ∧ SpineNoArr [["b", "0"]] (.obj [("b", .str "1")]) :=
+  ⟨spineObj_of_check _ _ (by decide), spineNoArr_of_check _ _ (by decide)⟩
+example : ¬ SpineObj [["b", "0"]] (.obj [("b", .str "1")]) := by
+  intro h
+  have := h ["b", "0"] (by simp) ["b"] (by simp) (by decide) (.str "1") rfl
+  cases this
+example : applyFragment (.obj []) (.obj [("b", .str "1")]) ["/b/0"] = .ok (.obj []) := by rfl
+example : applyAclFilters (.obj [("c", .str "xy")]) ["/c/0"] = .ok (.obj []) := by rfl
+example : resolve "/c/*" (.obj [("c", .str "xy")]) = .ok [] ∧
+    resolve "/c/*" (.obj [("c", .arr [.str "x", .str "y"])]) = .ok [["c", "0"], ["c", "1"]] := ⟨by rfl, by rfl⟩
 
 /-- … and the merge replaces `T|a/b` by the fragment's (dropping `X`), adds `T|c`, keeps `keep~` and `BGP`. -/
 example : applyFragment exOld exF exAcl =
@@ -235,7 +342,7 @@ example : covers ["ACL", "T|*"] ["ACL", "T|a/b", "X", "0"] = true := by decide
 /-- filters: hypotheses met, result is a proper sub-document -/
 example : applyAclFilters exOld [" /ACL/T|*/P ", "", "/BGP"] =
     .ok (.obj [("ACL", .obj [("T|a/b", .obj [("P", .str "1")])]), ("BGP", .obj [("asn", .num 1)])]) := by rfl
-example : SpineObj [["ACL", "T|*", "P"], ["BGP"]] exOld := spineObj_of_check _ exOld (by decide)
+example : SpineNoArr [["ACL", "T|*", "P"], ["BGP"]] exOld := spineNoArr_of_check _ exOld (by decide)
 example : pyStrip " /ACL/T|*/P " = "/ACL/T|*/P" ∧ pyStrip "" = "" := by decide
 
 /-- chain of two generators -/
